@@ -3,6 +3,9 @@ package vlib
 import (
 	"math"
 	"math/rand"
+	"runtime"
+	"sync"
+	"sync/atomic"
 	"time"
 )
 
@@ -136,3 +139,29 @@ func (r *R) TimeNs() int64 {
 
 // UnixNs converts ns to time.Time the way the store does.
 func UnixNs(ns int64) time.Time { return time.Unix(0, ns) }
+
+// Parallel runs f(0..n-1) on up to workers goroutines (0 = number of CPUs, capped at 12).
+func Parallel(n, workers int, f func(i int)) {
+	if workers <= 0 {
+		workers = runtime.NumCPU()
+		if workers > 12 {
+			workers = 12
+		}
+	}
+	var wg sync.WaitGroup
+	next := int64(-1)
+	for w := 0; w < workers; w++ {
+		wg.Add(1)
+		go func() {
+			defer wg.Done()
+			for {
+				i := int(atomic.AddInt64(&next, 1))
+				if i >= n {
+					return
+				}
+				f(i)
+			}
+		}()
+	}
+	wg.Wait()
+}
